@@ -164,9 +164,13 @@ pub fn run(sp: &Spawn) -> ProcOut {
 		let mut pipe = child.stdin.take().unwrap();
 		let packets = packets.clone();
 		stdin_thread = Some(std::thread::spawn(move || {
-			for p in packets {
+			let n = packets.len();
+			for (pi, p) in packets.into_iter().enumerate() {
 				if pipe.write_all(&p).is_err() {
 					return;
+				}
+				if pi + 1 == n {
+					break; // nothing follows: close the pipe right away
 				}
 				let start = Instant::now();
 				loop {
